@@ -415,6 +415,27 @@ Definition queued (st : rx) : list bytes := map snd (r_queue st).
 (** ** Renderings for the correspondence files (printable values only;
     options are rendered as lists of length 0 or 1) *)
 
+(** Test data of any length at a constant cost per octet: the 251-octet
+    block [mkdata seed 251] repeated ([Lib.Bytes.mkdata] costs a 32-bit
+    multiplication and division per octet under [vm_compute]). *)
+Fixpoint cyc (n : nat) (cur blk : bytes) : bytes :=
+  match n with
+  | O => []
+  | S n' =>
+      match cur with
+      | b :: t => b :: cyc n' t blk
+      | [] => match blk with
+              | b :: t => b :: cyc n' t blk
+              | [] => []
+              end
+      end
+  end.
+Definition gdata (seed len : N) : bytes := cyc (N.to_nat len) [] (mkdata seed 251).
+
+(** digest: a := (33 a + b) mod 2^32 from 5381, with shifts and masks only. *)
+Definition digest (bs : bytes) : N :=
+  fold_left (fun a b => N.land (N.shiftl a 5 + a + b) 4294967295) bs 5381.
+
 Definition o_opt {A} (o : option A) : list A := match o with Some a => [a] | None => [] end.
 
 Definition o_hint (h : hint) : N * bytes := (h_type h, h_data h).
@@ -457,6 +478,16 @@ Definition run_codec (c : list (N * list N * list (N * bytes) * N * N * bytes) *
   let bs := encode_frame f in
   (wf_frameb f, bs, map len_field (f_msgs f), map o_frame (o_opt (decode_frame bs))).
 
+(** Same for frames with large payloads: octet strings are rendered as
+    (length, digest), views are left out. *)
+Definition o_msg_big (m : msg) :=
+  (m_type m, m_flags m, map o_hint (m_hints m), blen (m_body m), digest (m_body m)).
+Definition run_codec_big (c : list (N * list N * list (N * bytes) * N * N * bytes) * bytes) :=
+  let f := mkFrame (map b_msg (fst c)) (snd c) in
+  let bs := encode_frame f in
+  (wf_frameb f, blen bs, digest bs, map len_field (f_msgs f),
+   map (fun g => (map o_msg_big (f_msgs g), f_pad g)) (o_opt (decode_frame bs))).
+
 (** Decode case: arbitrary octets.  Result: strict decoding and its re-encoding. *)
 Definition run_decode (bs : bytes) :=
   map (fun g => (o_frame g, encode_frame g)) (o_opt (decode_frame bs)).
@@ -464,12 +495,9 @@ Definition run_decode (bs : bytes) :=
 (** Send case: (mtu or none, xfer id, seed, length). *)
 Definition run_send (c : list N * N * N * N) : list bytes :=
   let '(mtu, xid, seed, len) := c in
-  send_transfer (hd_error mtu) xid (mkdata seed (N.to_nat len)).
+  send_transfer (hd_error mtu) xid (gdata seed len).
 
 (** Same for large bundles: per frame (length, first 24 octets, digest). *)
-Definition digest (bs : bytes) : N :=
-  fold_left (fun a b => (a * 16777619 + b) mod 4294967296) bs 2166136261.
-
 Definition run_send_big (c : list N * N * N * N) : list (N * bytes * N) :=
   map (fun f => (blen f, firstn 24 f, digest f)) (run_send c).
 
@@ -500,7 +528,7 @@ Definition run_recv (c : list (N * bytes)) :=
     transfers still in progress, timers, and "the queued octets are the bundle". *)
 Definition run_xfer (c : N * N * N * N * list nat) :=
   let '(mtu, xid, seed, len, order) := c in
-  let data := mkdata seed (N.to_nat len) in
+  let data := gdata seed len in
   let frames := send_transfer (Some mtu) xid data in
   let arrival := map (fun i => (1, nth i frames [])) order in
   let '(tr, fin) := recv_trace rx_init arrival in
